@@ -187,6 +187,32 @@ where
                 ctx.count("branch-statistics:mirror-differs-from-real-graph");
             }
         }
+        // compiled LOOKUP and TRASH graphs (`Evaluator::new`, hook `verif_argument_graphs`) vs the Lean
+        // compiler: a lookup graph is compared whole (input expressions, Horner with theta, table
+        // expressions, Horner, `+ gamma`, `+ beta`, product); a trash graph is the constraint expressions
+        // followed by one Horner with the trash challenge
+        let fmt = |consts: &Vec<F>, rots: &Vec<i32>, calcs: &[String]| {
+            format!(
+                "consts={} rots={} calcs={}",
+                consts.iter().map(mzkh::fe_hex).collect::<Vec<_>>().join(","),
+                if rots.is_empty() { "-".to_string() } else { rots.iter().map(|r| r.to_string()).collect::<Vec<_>>().join(",") },
+                if calcs.is_empty() { "-".to_string() } else { calcs.join(";") }
+            )
+        };
+        let (lgraphs, tgraphs) = pk.verif_argument_graphs();
+        let cs = pk.get_vk().cs();
+        for (l, (consts, rots, calcs)) in cs.lookups().iter().zip(lgraphs.iter()) {
+            let ins: Vec<String> = l.input_expressions().iter().map(mzkh::csdump::expr_string).collect();
+            let tabs: Vec<String> = l.table_expressions().iter().map(mzkh::csdump::expr_string).collect();
+            ctx.case("lgraph", true, &format!("lgraph {} {}", ins.join(";"), tabs.join(";")), &fmt(consts, rots, calcs));
+        }
+        if lgraphs.len() != cs.lookups().len() || tgraphs.len() != cs.trashcans().len() {
+            ctx.count("argument-graphs:count-differs-from-constraint-system");
+        }
+        for (t, (consts, rots, calcs)) in cs.trashcans().iter().zip(tgraphs.iter()) {
+            let es: Vec<String> = t.constraint_expressions().iter().map(mzkh::csdump::expr_string).collect();
+            ctx.case("tgraph", true, &format!("tgraph {}", es.join(";")), &fmt(consts, rots, calcs));
+        }
     }
     let lens = insts
         .iter()
@@ -482,10 +508,57 @@ fn both_hashes(ctx: &mut Ctx, setup: &mut Setup, fp: &FamParams, n_proofs: usize
     }
 }
 
+/// `evaluation.rs: get_rotation_idx` (hook `verif_get_rotation_idx`) vs the Lean mirror: every row class
+/// (first, last, middle) x negative / positive rotations incl. wrap-around and |rot| beyond the domain,
+/// on the un-extended domain (scale 1) and extended domains (scale 2^(extended_k - k)).
+fn rotation_idx_cases(ctx: &mut Ctx) {
+    type Pk = midnight_proofs::plonk::ProvingKey<F, Scheme>;
+    let mut rng = ctx.rng("rotidx");
+    let mut cases: Vec<(usize, i32, i32, i32)> = Vec::new();
+    for (k, ek) in [(3u32, 3u32), (3, 5), (4, 6), (6, 9), (10, 13)] {
+        let isize = 1i32 << ek;
+        let scale = 1i32 << (ek - k);
+        let n = 1i32 << k;
+        for idx in [0usize, 1, (isize / 2) as usize, (isize - 2) as usize, (isize - 1) as usize] {
+            for rot in [0, 1, -1, 2, -2, 3, -3, n - 1, -(n - 1), n, -n, n + 1, -(n + 1), 5 * n, -(5 * n) - 1] {
+                cases.push((idx, rot, scale, isize));
+            }
+        }
+        for _ in 0..12 {
+            cases.push((rng.gen_range(0..isize as usize), rng.gen_range(-3 * n..=3 * n), scale, isize));
+        }
+    }
+    let mut reported = false;
+    for (idx, rot, scale, isize) in cases {
+        let got = Pk::verif_get_rotation_idx(idx, rot, scale, isize);
+        let class = if rot < 0 && (idx as i32) + rot * scale < 0 {
+            "wrap-below"
+        } else if (idx as i32) + rot * scale >= isize {
+            "wrap-above"
+        } else {
+            "inside"
+        };
+        ctx.count(&format!("rotidx:{class}"));
+        ctx.case("rotidx", true, &format!("rotidx {idx} {rot} {scale} {isize}"), &got.to_string());
+        if got >= isize as usize {
+            ctx.count("rotidx:out-of-range");
+        }
+        if got >= isize as usize && !reported {
+            reported = true;
+            ctx.oracle_fail(
+                &format!("rotidx-out-of-range:{idx},{rot},{scale},{isize}"),
+                "get_rotation_idx returned an index outside the polynomial",
+                json!({"idx": idx, "rot": rot, "rot_scale": scale, "isize": isize, "got": got}),
+            );
+        }
+    }
+}
+
 fn main() {
     let mut ctx = Ctx::from_args("C01");
     let mut setup = Setup { params: HashMap::new() };
     let mut rng = ctx.rng("family");
+    rotation_idx_cases(&mut ctx);
 
     // corpus first: the configuration of defect D1 (2 and 3 proofs, one committed + one plain column)
     let d1 = FamParams { n_committed: 1, n_plain: 1, ..FamParams::default() };
